@@ -5,7 +5,7 @@
     counters, per-socket ack tables; client Manager routing and sockets).  [sstep] is one atomic
     step of the server on behalf of one connection / namespace, [srun] a history of them. *)
 From SioV Require Import Base.GoSem Sio.NspRouting Sio.NspRoutingProofs Sio.NspRoutingWire.
-From SioV Require Import Sio.Header Sio.HeaderProofs.
+From SioV Require Import Sio.Header Sio.HeaderProofs Sio.NspFrames Sio.NspFramesProofs.
 Local Open Scope N_scope.
 
 (** A decoded packet is dispatched only to the socket registered for exactly its (normalised)
@@ -167,3 +167,23 @@ Example C05_example_quiet :
   map out_nsp (snd (srun l (server0 [a; ab; a_b]))) =
   [Some a; Some a; Some ab; Some ab; Some a; Some a; Some ab; Some ab; Some a; Some a; Some ab].
 Proof. vm_compute. split; reflexivity. Qed.
+
+(** * Frames of several namespaces on the shared connection (Sio/NspFrames.v)
+    For every set of concurrent emitters (any namespaces, any goroutines: Emit, broadcast, ack) and
+    every interleaving of their queue operations on one connection: the receiver dispatches exactly
+    the queued packets, each with its own namespace, tag and attachments, and never hits a parse
+    error -- no handler ever receives a frame of another namespace's traffic, and no namespace's
+    traffic closes the connection under the others. *)
+Theorem C05_frames_isolated : forall sched ems,
+  receive None (wire_atomic sched ems) = (map delivered_as (sent_order sched ems), false) /\
+  (forall r, In r (fst (receive None (wire_atomic sched ems))) ->
+     exists q p, In q ems /\ In p q /\ r = delivered_as p).
+Proof. exact frames_isolated. Qed.
+
+(** What this excludes (frames queued one call each): /a's handler gets /b's frame as an
+    attachment, then a parse error closes the connection. *)
+Theorem C05_split_frames_leak_refuted :
+  let a := [47; 97] in let b := [47; 98] in
+  receive None (wire_split [0; 1; 0; 0]%nat [[mkFP a 1 [10; 11]]; [mkFP b 2 []]]) =
+  ([mkRP a 1 [FText b 2 0; FBin 10]], true).
+Proof. exact split_frames_leak. Qed.
